@@ -40,6 +40,80 @@ def check_headers(r):
     return bad
 
 
+def first_requests_race(c, t, rng, judge, f):
+    """the very first requests of a fresh process arrive on all workers at the same instant (state that is built lazily on
+    first use is built under contention), then one more request follows sequentially"""
+    import os, socket, struct, time, threading
+    starts = 10 if c.quick else 80
+    w = 8
+    c.need("fresh-server simultaneous first requests")
+    for k in range(starts):
+        srv = server.Server(t.root, threads=w)
+        if not srv.started:
+            srv.cleanup()
+            c.inconc("server did not start")
+            continue
+        try:
+            raw = ("GET %s HTTP/1.1\r\nHost: x\r\nOrigin: https://a.example\r\n\r\n" % f).encode()
+            socks = [srv.connect(timeout=10) for _ in range(w)]
+            time.sleep(0.05)   # every worker is now blocked in read()
+            go = time.monotonic() + 0.05
+            res = [b""] * w
+
+            def fire(i):
+                while time.monotonic() < go:
+                    pass
+                try:
+                    socks[i].sendall(raw)
+                    buf = b""
+                    while True:
+                        ch = socks[i].recv(65536)
+                        if not ch:
+                            break
+                        buf += ch
+                    res[i] = buf
+                except OSError:
+                    pass
+            # forked senders spinning on the clock: threads would be serialised by the interpreter lock
+            d = core.scratch("race-")
+            pids = []
+            for i in range(w):
+                pid = os.fork()
+                if pid == 0:
+                    try:
+                        fire(i)
+                        with open(os.path.join(d, "r%d" % i), "wb") as fh:
+                            fh.write(res[i])
+                    finally:
+                        os._exit(0)
+                pids.append(pid)
+            for pid in pids:
+                try:
+                    os.waitpid(pid, 0)
+                except OSError:
+                    pass
+            for i in range(w):
+                try:
+                    res[i] = open(os.path.join(d, "r%d" % i), "rb").read()
+                except OSError:
+                    res[i] = b""
+            import shutil
+            shutil.rmtree(d, ignore_errors=True)
+            for s in socks:
+                try:
+                    s.close()
+                except OSError:
+                    pass
+            label = {"route": "first-requests-race", "el": "none", "kind": "valid"}
+            for data in res:
+                judge(raw, label, data, "binary", None)
+            data, end = srv.request(raw)
+            judge(raw, label, data, "binary", None)
+            c.seen("fresh-server simultaneous first requests")
+        finally:
+            srv.cleanup()
+
+
 def route_of(label, raw):
     return label.get("route", "?")
 
@@ -136,5 +210,6 @@ def run(c):
             if srv:
                 srv.cleanup()
         c.extra["statuses_observed"] = {k: sorted(v) for k, v in observed.items()}
+        first_requests_race(c, t, rng, judge, f)
     finally:
         t.cleanup()
